@@ -178,7 +178,7 @@ def describe(c):
 
 
 def run(ctx, fa, own):
-    n = 320 if ctx.quick() else 5000
+    n = 800 if ctx.quick() else 6000
     cases = make_cases(ctx, fa, n)
     ctx.rule = ("seeded product: schema of every top-level kind x record lists (0..70 records, zero-byte records) x codec in the importable "
                 "{null, deflate, bzip2, xz} x sync_interval {1 .. total+1} x compression level x metadata x sync marker x raw/parsed schema x "
